@@ -447,6 +447,455 @@ def oracle(chk, F, pkg, quick):
                     bad("real:rft2∘irft2:%s" % par, "%s.rft2(irft2(H)) ≠ H for the half-spectrum of a real n×n array, n=%d" % (ename, n), n=n)
 
 
+# ------------------------------------------------------------------------------------------------------------------------------
+# Round 5 (generator audit): input classes and call histories the sections above never produce.  Every function of the module is
+# run on the SAME values presented in other ways (argument dtypes, memory layouts, spacing given as Python int / NumPy scalar /
+# 0-d array, keyword call), on sizes that cross plausible size thresholds (1-D up to 2^18, single 2-D frames up to 2^18 elements,
+# primes, long thin stacks), and in call histories (same arguments again, other spacings on the same shape, the caller's input and
+# an earlier result re-used after a later call).  Expected values come from references that use neither the library nor numpy's
+# shift helpers: the centred-DFT formula evaluated with numpy.roll around numpy.fft (bit-identical to the unchanged code, so the
+# tolerance is rounding level), the explicit kernel for n ≤ 1024, analytic impulses and Gaussians.
+NAMES = ("ft", "ift", "ft2", "ift2", "rft", "irft", "rft2", "irft2")
+DIMS = {"ft": 1, "ift": 1, "ft2": 2, "ift2": 2, "rft": 1, "irft": 1, "rft2": 2, "irft2": 2}
+KWARG = {"ft": "delta", "ft2": "delta", "rft": "delta", "rft2": "delta", "ift": "delta_f", "ift2": "delta_f", "irft": "delta_f", "irft2": "delta_f"}
+TIGHT = 1e-12        # relative to max|expected|.  Observed on the unchanged tree over seeds 0..11 + thorough: see OBS_* in the notes
+                     # of the evidence file (worst 6.0e-16 on a value, i.e. margin > 1000x)
+F32TOL = 200 * float(numpy.finfo("float32").eps)   # single-precision inputs are transformed in single precision (worst observed 2.7e-7·scale… see notes)
+GAUSS2 = 1e-2       # discretisation error of the sampled 2-D Gaussian (σ = nδ/8), deterministic in n: 4.4e-4 at n=9, ≤ 1.7e-4 for n ≥ 16
+WEAK = 1e-5          # relative accuracy demanded of a weak (1e-8 relative) imaginary part; worst observed 4e-8
+
+
+def ref4(name, x, s):
+    """centred DFT conventions of the property, written with numpy.roll (origin at sample n//2 of both grids), in binary64"""
+    x = numpy.asarray(x).astype(complex)
+    s = float(s)
+    n = x.shape[-1]
+    c = n // 2
+    if name == "ft":
+        return numpy.roll(numpy.fft.fft(numpy.roll(x, -c, -1), axis=-1), c, -1) * s
+    if name == "ift":
+        return numpy.roll(numpy.fft.ifft(numpy.roll(x, -c, -1), axis=-1), c, -1) * n * s
+    cc = (x.shape[-2] // 2, c)
+    y = numpy.roll(x, (-cc[0], -cc[1]), (-2, -1))
+    if name == "ft2":
+        return numpy.roll(numpy.fft.fft2(y, axes=(-2, -1)), cc, (-2, -1)) * s ** 2
+    return numpy.roll(numpy.fft.ifft2(y, axes=(-2, -1)), cc, (-2, -1)) * (n * s) ** 2       # ift2: N = length of the LAST axis
+
+
+def half_index(n):
+    """rft's half-spectrum (even n) in terms of the full centred spectrum: position i holds bin (i − m//2) mod m, m = n/2+1, and
+    non-negative bin q of the DFT sits at sample (n//2 + q) mod n of ft's output (the Nyquist bin n/2 at sample 0)"""
+    m = n // 2 + 1
+    return (n // 2 + ((numpy.arange(m) - m // 2) % m)) % n
+
+
+def kernel_ref(x, d, dims):
+    """the property's formula itself, X_k = δ Σ_j x_j e^{-2πi (j-c)(k-c)/n}, by matrix products (independent of numpy.fft)"""
+    def ker(n):
+        j = numpy.arange(n) - n // 2
+        return numpy.exp(-2j * numpy.pi * ((numpy.outer(j, j) % n) / n))
+    if dims == 1:
+        return d * (x @ ker(x.shape[-1]))
+    return d * d * (ker(x.shape[-2]).T @ x @ ker(x.shape[-1]))
+
+
+def make_case(sub, name, shape, s, kind="gauss"):
+    """(input, expected) for `name` on a field of the given full shape, both binary64 and C-contiguous.  For the inverse real
+    variants `shape` is the shape of the REAL signal, the input is its reference half-spectrum for spacing 1/(n s), and the
+    expected output is the signal itself (the inverse-pair clause), so nothing here depends on the library."""
+    g = numpy.random.default_rng(sub)
+    dims = DIMS[name]
+
+    def field(real):
+        if kind == "int":
+            return g.integers(0, 2, size=shape).astype(float)       # 0/1: representable in every integer dtype and in bool
+        if kind == "int8":
+            return g.integers(0, 101, size=shape).astype(float)     # fits int8 … uint64; times a spacing ≥ 3 it does not fit (u)int8
+        return g.normal(size=shape) if real else g.normal(size=shape) + 1j * g.normal(size=shape)
+    if name in ("ft", "ift", "ft2", "ift2"):
+        x = field(kind in ("int", "int8", "real"))
+        return x, ref4(name, x, s)
+    x = field(True)
+    n = shape[-1]
+    idx = half_index(n)
+    if name in ("rft", "rft2"):
+        return x, ref4("ft" if dims == 1 else "ft2", x, s)[..., idx]
+    d = 1.0 / (n * s)
+    return numpy.ascontiguousarray(ref4("ft" if dims == 1 else "ft2", x, d)[..., idx]), x
+
+
+class Audit:
+    def __init__(self, chk, F, pkg, quick):
+        self.chk, self.quick = chk, quick
+        self.obs = {}
+        # the package-level name is run as well unless it IS the module's function object (then its behaviour is the same by identity)
+        self.entries = {}
+        for nm in NAMES:
+            self.entries[nm] = [("fouriertransform", getattr(F, nm))]
+            if getattr(pkg, nm, None) is not getattr(F, nm):
+                self.entries[nm].append(("aotools", getattr(pkg, nm)))
+                chk.count("audit:package-name-is-a-different-object")
+
+    def see(self, fam, err, tol):
+        r = err / tol
+        if not r <= self.obs.get(fam, 0.0):
+            self.obs[fam] = r
+
+    def call(self, key, what, rep, fn, *a, **k):
+        """run the library; an exception on an in-domain input is a failing input with its own key"""
+        try:
+            with numpy.errstate(all="ignore"):
+                return fn(*a, **k)
+        except Exception as ex:
+            self.chk.fail("exception:" + key, "%s raised %s: %s" % (what, type(ex).__name__, ex), rep)
+            return None
+
+    def value(self, fam, key, what, rep, out, exp, tol):
+        """|out − exp| ≤ tol·max|exp| (shape included); True if it holds"""
+        if out is None:
+            return False
+        out = numpy.asarray(out)
+        sc = float(numpy.abs(exp).max()) + 1e-300
+        err = float(numpy.abs(out - exp).max()) / sc if out.shape == exp.shape else float("inf")
+        if not err <= tol:
+            self.chk.fail(key, "%s: relative error %.3g > %.3g (shape %s, expected %s)" % (what, err, tol, out.shape, exp.shape), rep)
+            return False
+        self.see(fam, err, tol)
+        return True
+
+
+def presentations(inp, nprng):
+    """the same values as `inp` (binary64 / complex128, C-contiguous) in other memory layouts"""
+    out = []
+    if inp.ndim >= 2:
+        out.append(("fortran", numpy.asfortranarray(inp)))
+        big = numpy.zeros((2 * inp.shape[0],) + inp.shape[1:], dtype=inp.dtype)
+        big[::2] = inp
+        big[1::2] = 7.0
+        out.append(("strided-first-axis", big[::2]))
+        out.append(("negative-stride-first-axis", inp[::-1].copy()[::-1]))
+        out.append(("transposed-copy", numpy.ascontiguousarray(numpy.swapaxes(inp, -1, -2)).swapaxes(-1, -2)))
+    big = numpy.zeros(inp.shape[:-1] + (3 * inp.shape[-1],), dtype=inp.dtype)
+    big[..., 1::3] = inp
+    big[..., 0::3] = -3.0
+    out.append(("strided-last-axis", big[..., 1::3]))
+    out.append(("negative-stride-last-axis", inp[..., ::-1].copy()[..., ::-1]))
+    ro = inp.copy()
+    ro.setflags(write=False)
+    out.append(("read-only", ro))
+    out.append(("big-endian", inp.astype(inp.dtype.newbyteorder(">"))))
+    out.append(("sliced-from-larger", numpy.pad(inp, [(1, 2)] * inp.ndim, constant_values=5.0)[tuple(slice(1, 1 + k) for k in inp.shape)]))
+    return out
+
+
+def audit_presentations(A, nprng):
+    chk, quick = A.chk, A.quick
+    pool1 = [(8,), (9,), (1,), (2,), (16,), (3, 1), (3, 6), (5, 7), (1, 8), (1, 1, 5), (2, 3, 7), (3, 5, 4), (2, 3, 2, 6), (7, 10), (4, 4), (5, 5)]
+    pool2 = [(6, 6), (7, 7), (1, 1), (2, 2), (3, 1, 1), (3, 4, 4), (5, 3, 3), (1, 6, 6), (2, 3, 5, 5), (3, 5, 2, 2), (7, 4, 4), (3, 3, 3), (4, 6), (6, 5),
+             (5, 8), (3, 4, 7), (3, 8, 5)]
+    pool1r = [sh for sh in pool1 if sh[-1] % 2 == 0]
+    pool2r = [sh for sh in pool2 if sh[-1] % 2 == 0 and sh[-1] == sh[-2]]
+    per = 4 if quick else 14
+    for name in NAMES:
+        dims = DIMS[name]
+        real_variant = name in ("rft", "irft", "rft2", "irft2")
+        pool = (pool1r if dims == 1 else pool2r) if real_variant else (pool1 if dims == 1 else pool2)
+        if name == "ift2":
+            pool = [sh for sh in pool if sh[-1] == sh[-2]]        # ift2 of a non-square array is only specified through the inverse pair
+        shapes = [pool[i] for i in sorted(chk.rng.sample(range(len(pool)), min(per, len(pool))))]
+        for ename, fn in A.entries[name]:
+            for shape in shapes:
+                s = chk.rng.choice([0.5, 0.25, 2.0, 0.125, 4.0])          # exactly representable in every floating type used below
+                sub = chk.rng.getrandbits(32)
+                inp, exp = make_case(sub, name, shape, s)
+                rep = dict(function=name, entry=ename, shape=list(shape), spacing=s, data_seed=sub,
+                           data="numpy.random.default_rng(data_seed) via c09.make_case(data_seed, function, shape, spacing)")
+                if inp.size <= 64:
+                    rep["input"] = [[float(z.real), float(z.imag)] for z in inp.ravel()]
+                tag = "%s:%s" % (name, ename)
+                what = "%s.%s on a %s %s array, spacing %r" % (ename, name, shape if name not in ("irft", "irft2") else inp.shape, inp.dtype, s)
+                chk.oracle_cases += 1
+                chk.count("audit:presentations:%s" % name)
+                chk.case(("audit-presentations", name, ename, shape, s))
+                before = inp.copy()
+                out0 = A.call("base:" + tag, what, rep, fn, inp, s)
+                if not A.value("value", "reference:" + tag, what + " differs from the centred transform", rep, out0, exp, TIGHT):
+                    continue
+                keep = out0.copy()
+                if not numpy.array_equal(inp, before):
+                    chk.fail("input-mutated:" + tag, what + " changed the caller's array", rep)
+                    inp[...] = before
+                if numpy.shares_memory(out0, inp):
+                    chk.fail("alias:" + tag, what + " returns memory shared with its input", rep)
+                if not real_variant and not numpy.iscomplexobj(out0):
+                    chk.fail("dtype:%s:real-result" % tag, what + " returned a real array (dtype %s)" % out0.dtype, rep)
+                # history: another input of the same shape, then the first one again; the earlier RESULT must not have changed
+                other, _ = make_case(sub ^ 0x5bd1e995, name, shape, s)
+                A.call("base:" + tag, what, rep, fn, other, s)
+                if not numpy.array_equal(out0, keep):
+                    chk.fail("history:result-overwritten:" + tag, what + ": the array returned by the first call changed when the function was "
+                             "called again on another array of the same shape", rep)
+                again = A.call("base:" + tag, what, rep, fn, inp, s)
+                if again is None or again.shape != keep.shape or not numpy.array_equal(again, keep):
+                    chk.fail("history:repeat:" + tag, what + ": the same call repeated after a call on other data gives a different result", rep)
+                # keyword call
+                kw = A.call("keyword:" + tag, what + " called as %s(data=…, %s=…)" % (name, KWARG[name]), rep, fn, **{"data": inp, KWARG[name]: s})
+                if kw is not None and not (kw.shape == keep.shape and numpy.array_equal(kw, keep)):
+                    chk.fail("keyword:" + tag, what + ": keyword call differs from the positional call", rep)
+                # memory layouts
+                for lab, view in presentations(inp, nprng):
+                    vb = view.copy()
+                    r = dict(rep, layout=lab)
+                    o = A.call("layout:%s:%s" % (lab, tag), what + " [" + lab + "]", r, fn, view, s)
+                    A.value("layout", "layout:%s:%s" % (lab, tag), what + " given as a %s view differs from the contiguous array" % lab, r, o, exp, TIGHT)
+                    if view.flags.writeable and not numpy.array_equal(view, vb):
+                        chk.fail("input-mutated:" + tag, what + " changed the caller's array (%s view)" % lab, r)
+                    chk.count("audit:layout:" + lab)
+                bro = numpy.broadcast_to(inp, (3,) + inp.shape)
+                r = dict(rep, layout="broadcast (3,)+shape, stride 0")
+                o = A.call("layout:broadcast:" + tag, what + " [broadcast stack]", r, fn, bro, s)
+                A.value("layout", "layout:broadcast:" + tag, what + " given as a stride-0 stack of 3 equal frames differs from the frame's transform",
+                        r, o, numpy.broadcast_to(exp, (3,) + exp.shape), TIGHT)
+                # the spacing as other scalar types (same value)
+                scal = [("numpy.float64", numpy.float64(s)), ("numpy.float32", numpy.float32(s)), ("0-d array", numpy.array(s)),
+                        ("0-d float32 array", numpy.array(s, dtype="float32")), ("numpy.longdouble", numpy.longdouble(s))]
+                if s == int(s):
+                    scal += [("int", int(s)), ("numpy.int64", numpy.int64(s)), ("numpy.int32", numpy.int32(s)), ("0-d int array", numpy.array(int(s)))]
+                    # TODO(round 5, suspected defect, reported to the coordinator): a spacing given as a SMALL NumPy integer scalar is
+                    # squared in that integer type by ft2/ift2/rft2/irft2 (`delta**2`, `(N*delta_f)**2`) and wraps silently:
+                    # ift2(numpy.ones((7,7)), numpy.uint8(4)) is scaled by (28**2) mod 256 = 16 instead of 784, and
+                    # ft2(x, numpy.int32(70000)) by 70000**2 mod 2^32.  Kept out of the generator until it is decided:
+                    # scal.append(("numpy.uint8", numpy.uint8(s)))
+                for lab, sv in scal:
+                    r = dict(rep, spacing_type=lab)
+                    o = A.call("spacing-type:%s:%s" % (lab, tag), what + " [spacing as %s]" % lab, r, fn, inp, sv)
+                    A.value("spacing-type", "spacing-type:%s:%s" % (lab, tag), what + " with the spacing given as %s differs" % lab, r, o, exp, TIGHT)
+                    chk.count("audit:spacing-type:" + lab)
+                # single precision (transformed in single precision by numpy ≥ 2: tolerance of that type)
+                lo = inp.astype("complex64" if numpy.iscomplexobj(inp) else "float32")
+                r = dict(rep, dtype=str(lo.dtype))
+                o = A.call("dtype:%s:%s" % (lo.dtype, tag), what + " [%s]" % lo.dtype, r, fn, lo, s)
+                A.value("single", "dtype:%s:%s" % (lo.dtype, tag), what + " on %s data differs" % lo.dtype, r, o, exp, F32TOL)
+                if not numpy.iscomplexobj(inp):
+                    cx = inp.astype(complex)                        # a real field stored as complex128
+                    if name not in ("rft", "rft2"):
+                        o = A.call("dtype:complex-zero-imag:" + tag, what, rep, fn, cx, s)
+                        A.value("value", "dtype:complex-zero-imag:" + tag, what + " on a real field stored as complex128 differs", rep, o, exp, TIGHT)
+            # integer and boolean fields (forward and inverse complex transforms, forward real ones); the spacing also as a Python int
+            if name in ("irft", "irft2"):
+                continue
+            for ename, fn in A.entries[name]:
+                shape = chk.rng.choice(shapes)
+                for dt in ("bool", "uint8", "int8", "int16", "uint16", "int32", "uint32", "int64", "uint64"):
+                    for sv in (chk.rng.choice([3, 7, 12, 40]), chk.rng.choice([0.5, 0.3, 3.0])):
+                        sub = chk.rng.getrandbits(32)
+                        inp, exp = make_case(sub, name, shape, float(sv), kind="int" if dt == "bool" else "int8")
+                        xi = inp.astype(dt)
+                        rep = dict(function=name, entry=ename, shape=list(shape), spacing=repr(sv), dtype=dt, data_seed=sub,
+                                   input=[float(v) for v in inp.ravel()[:64]])
+                        tag = "%s:%s" % (name, ename)
+                        what = "%s.%s on a %s %s array, spacing %r" % (ename, name, shape, dt, sv)
+                        chk.oracle_cases += 1
+                        chk.count("audit:dtype:" + dt)
+                        chk.case(("audit-int", name, ename, shape, dt, sv))
+                        before = xi.copy()
+                        o = A.call("dtype:%s:%s" % (dt, tag), what, rep, fn, xi, sv)
+                        A.value("int", "dtype:%s:%s" % (dt, tag), what + " differs from the transform of the same values in binary64", rep, o, exp, TIGHT)
+                        if not numpy.array_equal(xi, before) or xi.dtype != before.dtype:
+                            chk.fail("input-mutated:" + tag, what + " changed the caller's array", rep)
+
+
+def audit_sizes(A, nprng):
+    """sizes beyond the 1..65 / 1..17 of the sections above, up to 2^18 elements in one transform and in one stack"""
+    chk, quick = A.chk, A.quick
+    r = chk.rng
+    one = [r.choice([100, 127, 128, 255]), r.choice([256, 257, 1000]), r.choice([1009, 1024, 1023]), r.choice([4096, 4099, 5000]),
+           r.choice([65536, 65537, 65535]), r.choice([1 << 18, (1 << 18) + 1, 300000])]
+    stacks1 = [r.choice([(3, 1 << 17), (5, 65536)]), r.choice([(512, 512), (513, 511)]), r.choice([(4099, 64), (3, 1367, 65), (70001, 4)]), (3, 1024), (2, 3, 257)]
+    two = [r.choice([31, 32, 33]), r.choice([64, 65, 100]), r.choice([127, 128, 129]), r.choice([255, 256, 257]), r.choice([511, 512, 513]),
+           r.choice([521, 600])]
+    stacks2 = [r.choice([(3, 128, 128), (5, 127, 127)]), r.choice([(2, 2, 257, 257), (1, 512, 512), (7, 200, 200)])]
+    nonsq = [r.choice([(300, 1000), (1000, 300)]), r.choice([(3, 33, 64), (3, 64, 33)]), (5, 8, 5), (2, 3, 5, 8), r.choice([(1, 4096 * 64), (4096 * 64, 1)])]
+    if not quick:
+        one = [100, 127, 128, 255, 256, 257, 1000, 1009, 1023, 1024, 4096, 4099, 5000, 65535, 65536, 65537, 1 << 18, (1 << 18) + 1, 300000, 1 << 20]
+        stacks1 = [(3, 1 << 17), (5, 65536), (512, 512), (513, 511), (4099, 64), (3, 1367, 65), (70001, 4), (3, 1024), (2, 3, 257), (1 << 18, 2), (65537, 3)]
+        two = [31, 32, 33, 64, 65, 100, 127, 128, 129, 255, 256, 257, 511, 512, 513, 521, 600, 1024]
+        stacks2 = [(3, 128, 128), (5, 127, 127), (2, 2, 257, 257), (1, 512, 512), (7, 200, 200), (3, 512, 512)]
+        nonsq = [(300, 1000), (1000, 300), (3, 33, 64), (3, 64, 33), (5, 8, 5), (2, 3, 5, 8), (1, 4096 * 64), (4096 * 64, 1), (3, 512, 600)]
+    jobs = [(nm, (n,)) for n in one for nm in ("ft", "ift")] + [(nm, sh) for sh in stacks1 for nm in ("ft", "ift")] \
+        + [(nm, (n, n)) for n in two for nm in ("ft2", "ift2")] + [(nm, sh) for sh in stacks2 for nm in ("ft2", "ift2")] \
+        + [("ft2", sh) for sh in nonsq] \
+        + [(nm, (n + n % 2,)) for n in one for nm in ("rft", "irft")] + [(nm, sh[:-1] + (sh[-1] + sh[-1] % 2,)) for sh in stacks1 for nm in ("rft", "irft")] \
+        + [(nm, (n + n % 2,) * 2) for n in two for nm in ("rft2", "irft2")] \
+        + [(nm, sh[:-2] + (sh[-1] + sh[-1] % 2,) * 2) for sh in stacks2 for nm in ("rft2", "irft2")]
+    for name, shape in jobs:
+        dims = DIMS[name]
+        n = shape[-1]
+        for ename, fn in A.entries[name]:
+            d = r.choice([0.5, 0.1, 3.0, 0.37])      # never 1: a lost or doubled spacing factor must show at every size
+            s = d if name in ("ft", "ft2", "rft", "rft2") else 1.0 / (n * d)
+            sub = r.getrandbits(32)
+            inp, exp = make_case(sub, name, shape, s, kind=r.choice(["gauss", "real"]))
+            rep = dict(function=name, entry=ename, shape=list(shape), spacing=s, data_seed=sub,
+                       data="c09.make_case(data_seed, function, shape, spacing)")
+            tag = "%s:%s" % (name, ename)
+            what = "%s.%s on a %s %s array, spacing %r" % (ename, name, inp.shape, inp.dtype, s)
+            chk.oracle_cases += 1
+            chk.count("audit:size:%s:%s" % (name, "stack" if len(shape) > dims else "single"))
+            chk.case(("audit-size", name, ename, shape, s))
+            before = inp.copy()
+            out = A.call("size:" + tag, what, rep, fn, inp, s)
+            if not A.value("value-large", "size:reference:" + tag, what + " differs from the centred transform", rep, out, exp, TIGHT):
+                continue
+            if not numpy.array_equal(inp, before):
+                chk.fail("input-mutated:" + tag, what + " changed the caller's array", rep)
+                inp[...] = before
+            lo = inp.astype("complex64" if numpy.iscomplexobj(inp) else "float32")        # the same size in single precision
+            o = A.call("size:%s:%s" % (lo.dtype, tag), what + " [%s]" % lo.dtype, rep, fn, lo, s)
+            A.value("single-large", "size:%s:%s" % (lo.dtype, tag), what + " on %s data differs" % lo.dtype, dict(rep, dtype=str(lo.dtype)), o, exp, F32TOL)
+            if name not in ("ft", "ft2"):
+                continue
+            # clauses evaluated directly at this size: inverse pair through the library's own inverse, Parseval, the explicit kernel
+            # (n ≤ 1024), an off-centre impulse (analytic linear phase), square frames only for the clauses that need ONE δ_f
+            inv = dict(A.entries["ift" if dims == 1 else "ift2"]).get(ename) or A.entries["ift" if dims == 1 else "ift2"][0][1]
+            df = 1.0 / (n * s)
+            back = A.call("size:inverse:" + tag, what, rep, inv, out, df)
+            A.value("inverse-large", "size:inverse:" + tag, "%s.i%s(%s(x,δ),1/(nδ)) ≠ x for shape %s" % (ename, name, name, shape), rep, back, inp.astype(complex), TIGHT)
+            square = dims == 1 or shape[-1] == shape[-2]
+            ax = tuple(range(-dims, 0))
+            if square:
+                lhs, rhs = (numpy.abs(inp) ** 2).sum(ax) * s ** dims, (numpy.abs(out) ** 2).sum(ax) * df ** dims
+                A.value("parseval-large", "size:parseval:" + tag, "Parseval fails per frame for shape %s" % (shape,), rep, rhs, lhs, TIGHT)
+            if max(shape[-dims:]) <= 1024 and inp.size <= (70000 if quick else 1 << 18):
+                A.value("kernel-large", "size:centred:" + tag, what + " differs from δ^d Σ x e^{-2πi (j-c)(k-c)/n}", rep, out, kernel_ref(inp, s, dims), 1e-10)
+            pos = tuple(r.randrange(k) for k in shape)
+            imp = numpy.zeros(shape, dtype=complex)
+            imp[pos] = 2.0 - 1.0j
+            o = A.call("size:impulse:" + tag, what, rep, fn, imp, s)
+            ph = numpy.exp(-2j * numpy.pi * (((pos[-1] - n // 2) * (numpy.arange(n) - n // 2)) % n) / n)
+            if dims == 2:
+                m_ = shape[-2]
+                ph = numpy.exp(-2j * numpy.pi * (((pos[-2] - m_ // 2) * (numpy.arange(m_) - m_ // 2)) % m_) / m_)[:, None] * ph[None, :]
+            ana = numpy.zeros(shape, dtype=complex)
+            ana[pos[:-dims]] = (2.0 - 1.0j) * s ** dims * ph
+            A.value("impulse-large", "size:impulse:" + tag, "an impulse at sample %s of a %s array does not map to the linear phase about the centre "
+                    "sample (and zero in the other frames)" % (pos, shape), dict(rep, impulse=list(pos)), o, ana, 1e-10)
+
+
+def audit_spacings(A, nprng):
+    """degree of homogeneity in the spacing over a call HISTORY on one shape (a result remembered per shape would show), extreme
+    spacings, and a weak imaginary part on a field of order one"""
+    chk, quick = A.chk, A.quick
+    r = chk.rng
+    for name in NAMES:
+        dims = DIMS[name]
+        real_variant = name in ("rft", "irft", "rft2", "irft2")
+        for ename, fn in A.entries[name]:
+            for rnd in range(2 if quick else 8):
+                n = r.choice([4, 6, 8, 16]) if real_variant else r.choice([3, 4, 7, 8, 16])
+                shape = r.choice([(), (3,), (2, 3)]) + (n,) * dims
+                sub = r.getrandbits(32)
+                inp, unit = make_case(sub, name, shape, 1.0)
+                # (for irft/irft2 `inp` is the reference half-spectrum built for δ_f = 1, so irft(inp, s) = s^dims · x)
+                far = [1e-100, 1e100] if dims == 1 else [1e-70, 1e70]
+                r.shuffle(far)
+                seq = [r.choice([0.5, 3.0, 0.1]), 1.0] + far + [r.choice([2.5, 1e-6, 1e6]), 1.0, r.choice([1e-300, 1e300] if dims == 1 else [1e-150, 1e150])]
+                tag = "%s:%s" % (name, ename)
+                chk.oracle_cases += 1
+                chk.count("audit:spacing-history:%s" % name)
+                chk.case(("audit-spacing-history", name, ename, shape, tuple(seq)))
+                for i, s in enumerate(seq):
+                    rep = dict(function=name, entry=ename, shape=list(shape), data_seed=sub, spacings_in_call_order=seq[:i + 1])
+                    what = "%s.%s(x, %r) after calls with spacings %s on the same %s array" % (ename, name, s, seq[:i], shape)
+                    o = A.call("spacing:" + tag, what, rep, fn, inp, s)
+                    if o is None:
+                        continue
+                    # compare in units of the spacing factor so that 1e±300 neither overflows nor loses the comparison
+                    fac = float(s) ** dims
+                    with numpy.errstate(all="ignore"):
+                        A.value("spacing", "spacing:" + tag, what + " is not spacing^%d times the transform at unit spacing" % dims, rep,
+                                numpy.asarray(o) / fac, unit, TIGHT)
+    # weak imaginary part on a field of order one: x = a + iεb, ε = 1e-8; the part of the result that is due to b must be there
+    eps = 1e-8
+    for name in ("ft", "ift", "ft2", "ift2"):
+        dims = DIMS[name]
+        for ename, fn in A.entries[name]:
+            for rnd in range(2 if quick else 8):
+                n = r.choice([4, 5, 8, 9, 16])
+                shape = r.choice([(), (3,)]) + (n,) * dims
+                s = r.choice([1.0, 0.5, 0.25])
+                sub = r.getrandbits(32)
+                g = numpy.random.default_rng(sub)
+                a, b = g.normal(size=shape), g.normal(size=shape)
+                x = a + 1j * eps * b
+                rep = dict(function=name, entry=ename, shape=list(shape), spacing=s, data_seed=sub, epsilon=eps,
+                           data="g=default_rng(data_seed); a=g.normal(size=shape); b=g.normal(size=shape); x=a+1j*epsilon*b")
+                tag = "%s:%s" % (name, ename)
+                chk.oracle_cases += 1
+                chk.count("audit:weak-imaginary:%s" % name)
+                chk.case(("audit-weak-imag", name, ename, shape, s))
+                o = A.call("weak-imaginary:" + tag, "%s.%s on a+iεb" % (ename, name), rep, fn, x, s)
+                if o is None:
+                    continue
+                part = (numpy.asarray(o) - ref4(name, a, s)) / eps
+                A.value("weak-imaginary", "weak-imaginary:" + tag, "%s.%s(a+iεb) − T(a) ≠ iε·T(b) for ε=1e-8 on a %s array (the weak imaginary "
+                        "part of the input is lost or distorted)" % (ename, name, shape), rep, part, ref4(name, 1j * b, s), WEAK)
+                if not numpy.iscomplexobj(o):
+                    chk.fail("dtype:%s:real-result" % tag, "%s.%s returned a real array (dtype %s) for a complex input" % (ename, name, numpy.asarray(o).dtype), rep)
+                # the other side: an order-one complex field whose TRANSFORM is a + iεb (an almost Hermitian spectrum, the transform of an
+                # almost real field): the weak imaginary part of the result must be there, and the result stays a complex array
+                other = {"ft": "ift", "ift": "ft", "ft2": "ift2", "ift2": "ft2"}[name]
+                xin = ref4(other, x, 1.0 / (n * s))
+                rep2 = dict(rep, data=rep["data"] + "; input = centred %s of x at spacing 1/(n*spacing)" % other)
+                o = A.call("weak-imaginary-result:" + tag, "%s.%s on the %s of a+iεb" % (ename, name, other), rep2, fn, xin, s)
+                if o is None:
+                    continue
+                A.value("weak-imaginary", "weak-imaginary-result:" + tag, "%s.%s of a field whose transform is a+iεb (ε=1e-8, %s array): the weak "
+                        "imaginary part of the result is lost or distorted" % (ename, name, shape), rep2, (numpy.asarray(o) - a) / eps, 1j * b, WEAK)
+                if not numpy.iscomplexobj(o):
+                    chk.fail("dtype:%s:real-result" % tag, "%s.%s returned a real array (dtype %s) for a complex input" % (ename, name, numpy.asarray(o).dtype), rep2)
+
+
+def audit_gauss2(A, nprng):
+    """2-D: centred Gaussian → analytic Gaussian, shift by (k,l) samples → the matching linear phase (the 1-D clauses of the section
+    above, through ft2 and its package-level name, incl. a stack)"""
+    chk = A.chk
+    for n in ([16, 17, 32, 33] if A.quick else [9, 12, 16, 17, 25, 32, 33, 64, 65]):
+        c = n // 2
+        d = 0.25
+        t = (numpy.arange(n) - c) * d
+        f = (numpy.arange(n) - c) / (n * d)
+        sig = n * d / 8.0
+        g1 = numpy.exp(-t ** 2 / (2 * sig ** 2))
+        a1 = sig * numpy.sqrt(2 * numpy.pi) * numpy.exp(-2 * (numpy.pi * sig * f) ** 2)
+        g2, a2 = numpy.outer(g1, g1), numpy.outer(a1, a1)
+        for ename, fn in A.entries["ft2"]:
+            chk.oracle_cases += 1
+            chk.case(("audit-gauss2", n, ename))
+            rep = dict(function="ft2", entry=ename, n=n, delta=d, sigma=sig)
+            G = A.call("gaussian:ft2:" + ename, "ft2 of a centred Gaussian", rep, fn, numpy.stack([g2, 2 * g2, g2]), d)
+            A.value("gauss2", "gaussian:ft2:%s:%s" % (ename, "odd" if n % 2 else "even"), "a stack of centred %dx%d Gaussians does not map to the "
+                    "analytic Gaussians" % (n, n), rep, G, numpy.stack([a2, 2 * a2, a2]).astype(complex), GAUSS2)
+            k, l = chk.rng.randrange(n), chk.rng.randrange(n)
+            x = nprng.normal(size=(n, n)) + 1j * nprng.normal(size=(n, n))
+            X = A.call("shift:ft2:" + ename, "ft2", rep, fn, x, d)
+            Xs = A.call("shift:ft2:" + ename, "ft2", rep, fn, numpy.roll(x, (k, l), (0, 1)), d)
+            if X is not None and Xs is not None:
+                ph = numpy.exp(-2j * numpy.pi * k * (numpy.arange(n) - c) / n)[:, None] * numpy.exp(-2j * numpy.pi * l * (numpy.arange(n) - c) / n)[None, :]
+                A.value("shift2", "shift:ft2:%s:%s" % (ename, "odd" if n % 2 else "even"), "a shift by (%d,%d) samples of a %dx%d field is not the "
+                        "matching linear phase" % (k, l, n, n), dict(rep, shift=[k, l]), Xs, ph * X, 1e-10)
+
+
+def oracle_audit(chk, F, pkg, quick):
+    nprng = numpy.random.default_rng(chk.rng.getrandbits(32))
+    A = Audit(chk, F, pkg, quick)
+    audit_presentations(A, nprng)
+    audit_sizes(A, nprng)
+    audit_spacings(A, nprng)
+    audit_gauss2(A, nprng)
+    chk.notes.append("round-5 audit, worst observed error / tolerance per family: " + ", ".join("%s=%.2g" % kv for kv in sorted(A.obs.items())))
+
+
 def kernel_contract(chk):
     """numpy.fft is the naive DFT and fft2 = nested 1-D transforms (the model's assumption about the external kernel)"""
     nprng = numpy.random.default_rng(7)
@@ -465,7 +914,11 @@ def run(chk):
     chk.rule = ("correspondence: Lean model at binary64 vs fouriertransform.* and aotools.* for all n in 1..33 (thorough: to 129), "
                 "batch shapes (),(3,),(2,3), integer/dyadic/gaussian data, several δ, tol 1e-9·scale; rft/irft even n ≤ 32, rft2 even n ≤ 8, "
                 "irft2 on genuine square and non-square half-spectra; oracle: the clauses of the property "
-                "on the real code; distinct = distinct (op, n, δ, data kind, batch, entry point)")
+                "on the real code; distinct = distinct (op, n, δ, data kind, batch, entry point); round-5 audit: all eight functions on "
+                "the same values as other dtypes (bool, (u)int8…64, single precision, big-endian), layouts (Fortran, strided, negative "
+                "stride, read-only, stride-0 stack), spacing types (int, NumPy scalars, 0-d arrays), keyword calls, sizes to 2^18 per "
+                "transform / per stack, spacing histories on one shape, caller's input and earlier results re-used, weak imaginary "
+                "parts, 2-D Gaussian / shift; references: numpy.roll around numpy.fft at 1e-12, explicit kernel and analytic impulses at 1e-10")
     chk.assumptions = ["numpy.fft kernels = naive DFT sums (contract checked numerically each run)",
                        "closeness of the sampled Gaussian's transform to the analytic Gaussian is numeric only (bound 2e-3·peak for σ = nδ/8)",
                        "real-input variants: proved for even n only (1-D and n×n); odd n is an open finding. numpy's rfft/irfft are "
@@ -474,12 +927,25 @@ def run(chk):
                        "(correspondence runs on genuine half-spectra; irft_real proves the model's output real exactly there)",
                        "non-square inputs of rft2 and batch dimensions of the real variants are not modelled (irft2 is: N×m, "
                        "N = shape[-2] on both scale factors)"]
+    import types
     import aotools
     from aotools import fouriertransform as F
     chk.build_and_audit("AoVerif.Props.C09", "AoVerif.Props.C09", REQUIRED)
+    # the eight transforms must be reachable under both names the property speaks of; a missing export is a failing input of its own
+    # (and must not crash the sections below: the package-level namespace handed to them falls back to the module's function)
+    gone = [nm for nm in NAMES if not callable(getattr(F, nm, None))]
+    for nm in gone:
+        chk.fail("export:fouriertransform.%s:missing" % nm, "aotools.fouriertransform.%s does not exist (or is not callable)" % nm, {"name": nm})
+    if gone:
+        return
+    for nm in NAMES:
+        if not callable(getattr(aotools, nm, None)):
+            chk.fail("export:aotools.%s:missing" % nm, "the package does not export %s (aotools.%s is %r)" % (nm, nm, getattr(aotools, nm, None)), {"name": nm})
+    aotools = types.SimpleNamespace(**{nm: getattr(aotools, nm) if callable(getattr(aotools, nm, None)) else getattr(F, nm) for nm in NAMES})
     kernel_contract(chk)
     try:
         correspondence(chk, F, aotools, quick)
     except common.LeanError as ex:
         chk.broke("correspondence", "driver failed", str(ex))
     oracle(chk, F, aotools, quick)
+    oracle_audit(chk, F, aotools, quick)
